@@ -15,6 +15,7 @@ VALUES = {
     'ctl': 'ctl\x01\n"q"', 'true': True, 'none': None, 'nest': [1, [2, 'x']], 'dict': {'n': {'m': 1}},
     'npint': np.int16(3), 'npfloat': np.float32(1.5), 'nparr': np.arange(3), 'bytes': b'bytes',
     # integers a double cannot hold exactly: they must be stored as exact native numbers
+    'nparr1': np.array([4]), 'nparr11': np.array([[0.25]]),      # one-element arrays stay (nested) lists
     'npbig': np.int64(2 ** 53 + 1), 'npubig': np.uint64(2 ** 64 - 1), 'pybig': 2 ** 63 + 12345,
 }
 SMALL = ['int', 'uni', 'nest']
@@ -106,7 +107,7 @@ class MetaSys(System):
                 for v in SMALL:
                     ops.append(('setitem' if i % 2 == 0 else 'updatekw', k, v))
             ops += [('update2', 'nest', 'int'), ('update3',)]
-        ops += [('update_empty',)]
+        ops += [('update_empty',), ('updboth', 'a')]
         for k in keys + ['zz']:
             ops += [('pop', k), ('popdef', k), ('del', k)]
         ops += [('popsame', 'a'), ('popsame', 'b')]
@@ -140,6 +141,9 @@ class MetaSys(System):
         elif kind == 'update3':
             call = lambda: md.update({'c': 1}, a='x', b=[1])
             new.update({'c': 1, 'a': 'x', 'b': [1]})
+        elif kind == 'updboth':        # the same key given positionally and by keyword: the keyword wins, as in dict.update
+            call = lambda: md.update({op[1]: 1}, **{op[1]: 44100})
+            new[op[1]] = 44100
         elif kind == 'update_empty':
             call = lambda: md.update({})
         elif kind == 'pop':
